@@ -7,15 +7,23 @@ package store
 
 import (
 	"encoding/json"
+	"errors"
 	"fmt"
+	"io"
+	"log"
 	"math/rand"
 	"net"
 	"os"
+	"os/exec"
 	"path/filepath"
 	"strings"
 	"sync"
 	"testing"
 	"time"
+
+	"github.com/hashicorp/raft"
+	"github.com/rqlite/rqlite/v10/snapshot"
+	rlog "github.com/rqlite/rqlite/v10/store/log"
 )
 
 type c33Input struct {
@@ -25,7 +33,21 @@ type c33Input struct {
 	PeersKind     string     `json:"peers_kind"`
 	Peers         []vfServer `json:"peers"`               // "SELF" in an address stands for the node's real address
 	PeersRaw      string     `json:"peers_raw,omitempty"` // written verbatim instead (malformed file)
+	Faults        []c33Fault `json:"faults,omitempty"`    // recovery attempts that fail / die before the one that is allowed to complete
 }
+
+// one failed recovery attempt: RecoverNode is called the way Store.Open calls it, over a snapshot store and a log
+// store that fail (an I/O error is returned: RecoverNode's deferred clean-up runs) or at which the process dies
+// (the data directory as it is at that moment is what the next start finds) at a given point
+type c33Fault struct {
+	Kind string `json:"kind"` // error | crash
+	At   string `json:"at"`   // c33Points
+}
+
+// the points, in the order RecoverNode reaches them on the pinned tree
+var c33Points = []string{"list", "open-snapshot", "getlog-first", "getlog-last", "create", "sink-write", "sink-close",
+	"after-sink-close", "first-index", "delete-range", "after-delete-range"}
+var c33ErrPoints = []string{"list", "open-snapshot", "getlog-first", "getlog-last", "create", "sink-write", "sink-close", "first-index", "delete-range"}
 
 // validity of a peers file as documented: id and host:port address on every server, no duplicates, a voter
 func c33PeersValid(l []vfServer) (bool, string) {
@@ -158,9 +180,22 @@ func c33GenPeers(r *rand.Rand, in *c33Input) {
 	}
 }
 
+func c33GenFault(r *rand.Rand) c33Fault {
+	if r.Intn(2) == 0 {
+		return c33Fault{Kind: "error", At: c33ErrPoints[r.Intn(len(c33ErrPoints))]}
+	}
+	return c33Fault{Kind: "crash", At: c33Points[r.Intn(len(c33Points))]}
+}
+
 func c33Gen(r *rand.Rand) c33Input {
 	in := c33Input{FK: r.Intn(10) < 6, NoSnapOnClose: r.Intn(4) != 0, Steps: c33GenSteps(r)}
 	c33GenPeers(r, &in)
+	switch k := r.Intn(10); {
+	case k < 4:
+		in.Faults = []c33Fault{c33GenFault(r)}
+	case k < 6:
+		in.Faults = []c33Fault{c33GenFault(r), c33GenFault(r)}
+	}
 	return in
 }
 
@@ -182,9 +217,188 @@ func c33Corpus() []c33Input {
 			out = append(out, c33Input{FK: fk, NoSnapOnClose: nos, Steps: delParent, PeersKind: "self", Peers: self})
 		}
 	}
+	// a recovery attempt fails at every reachable point, then recovery is repeated (with and without a snapshot on disk)
+	for _, steps := range [][]vfStep{delParent, fkViol} {
+		for _, p := range c33ErrPoints {
+			out = append(out, c33Input{FK: false, NoSnapOnClose: true, Steps: steps, PeersKind: "self", Peers: self, Faults: []c33Fault{{Kind: "error", At: p}}})
+		}
+		for _, p := range c33Points {
+			out = append(out, c33Input{FK: true, NoSnapOnClose: true, Steps: steps, PeersKind: "self", Peers: self, Faults: []c33Fault{{Kind: "crash", At: p}}})
+		}
+	}
+	// the newest snapshot is an incremental one when the attempt fails
+	twoSnaps := []vfStep{{Kind: "schema"},
+		{Kind: "req", Stmts: []vfStmt{{K: "insp", ID: 1}, {K: "insc", ID: 1, PID: 1}}},
+		{Kind: "snap"},
+		{Kind: "req", Stmts: []vfStmt{{K: "insp", ID: 2}}},
+		{Kind: "snap"},
+		{Kind: "req", Stmts: []vfStmt{{K: "insc", ID: 2, PID: 2}, {K: "insc", ID: 3, PID: 9}}}}
+	for _, f := range []c33Fault{{Kind: "error", At: "create"}, {Kind: "crash", At: "sink-write"}, {Kind: "error", At: "getlog-last"}} {
+		out = append(out, c33Input{FK: true, NoSnapOnClose: true, Steps: twoSnaps, PeersKind: "self", Peers: self, Faults: []c33Fault{f}})
+	}
 	out = append(out, c33Input{FK: true, NoSnapOnClose: true, Steps: fkViol, PeersKind: "no-voter", Peers: []vfServer{{ID: "n0", Address: "SELF", NonVoter: true}}})
 	out = append(out, c33Input{FK: true, NoSnapOnClose: true, Steps: []vfStep{{Kind: "schema"}}, PeersKind: "self", Peers: self})
 	return out
+}
+
+var errC33Injected = errors.New("injected fault: no space left on device")
+
+type c33Hook struct {
+	f     c33Fault
+	dir   string // the node's data directory
+	img   string // where the crash image goes
+	fired bool
+	imgOK bool
+	nget  int
+	last  uint64
+}
+
+func (h *c33Hook) hit(point string) error {
+	if h.fired || point != h.f.At {
+		return nil
+	}
+	h.fired = true
+	if h.f.Kind == "crash" {
+		if out, err := exec.Command("cp", "-a", h.dir, h.img).CombinedOutput(); err != nil {
+			return fmt.Errorf("crash image: %v %s", err, out)
+		}
+		h.imgOK = true
+		return errors.New("process died here (crash image taken)")
+	}
+	return errC33Injected
+}
+
+type c33Snaps struct {
+	*snapshot.Store
+	h *c33Hook
+}
+
+func (s *c33Snaps) List() ([]*raft.SnapshotMeta, error) {
+	if err := s.h.hit("list"); err != nil {
+		return nil, err
+	}
+	return s.Store.List()
+}
+func (s *c33Snaps) Open(id string) (*raft.SnapshotMeta, io.ReadCloser, error) {
+	if err := s.h.hit("open-snapshot"); err != nil {
+		return nil, nil, err
+	}
+	return s.Store.Open(id)
+}
+func (s *c33Snaps) Create(v raft.SnapshotVersion, index, term uint64, c raft.Configuration, ci uint64, tn raft.Transport) (raft.SnapshotSink, error) {
+	if err := s.h.hit("create"); err != nil {
+		return nil, err
+	}
+	sk, err := s.Store.Create(v, index, term, c, ci, tn)
+	if err != nil {
+		return nil, err
+	}
+	return &c33Sink{SnapshotSink: sk, h: s.h}, nil
+}
+
+type c33Sink struct {
+	raft.SnapshotSink
+	h *c33Hook
+}
+
+func (k *c33Sink) Write(p []byte) (int, error) {
+	if len(p) > 1 {
+		// part of the data reaches the disk before the fault
+		n, _ := k.SnapshotSink.Write(p[:len(p)/2])
+		if err := k.h.hit("sink-write"); err != nil {
+			return n, err
+		}
+		m, err := k.SnapshotSink.Write(p[len(p)/2:])
+		return n + m, err
+	}
+	return k.SnapshotSink.Write(p)
+}
+func (k *c33Sink) Close() error {
+	if err := k.h.hit("sink-close"); err != nil {
+		k.SnapshotSink.Cancel()
+		return err
+	}
+	if err := k.SnapshotSink.Close(); err != nil {
+		return err
+	}
+	return k.h.hit("after-sink-close")
+}
+
+type c33Logs struct {
+	raft.LogStore
+	h *c33Hook
+}
+
+func (l *c33Logs) LastIndex() (uint64, error) {
+	n, err := l.LogStore.LastIndex()
+	l.h.last = n
+	return n, err
+}
+func (l *c33Logs) GetLog(i uint64, out *raft.Log) error {
+	l.h.nget++
+	if l.h.nget == 1 {
+		if err := l.h.hit("getlog-first"); err != nil {
+			return err
+		}
+	}
+	if i == l.h.last {
+		if err := l.h.hit("getlog-last"); err != nil {
+			return err
+		}
+	}
+	return l.LogStore.GetLog(i, out)
+}
+func (l *c33Logs) FirstIndex() (uint64, error) {
+	if err := l.h.hit("first-index"); err != nil {
+		return 0, err
+	}
+	return l.LogStore.FirstIndex()
+}
+func (l *c33Logs) DeleteRange(a, b uint64) error {
+	if err := l.h.hit("delete-range"); err != nil {
+		return err
+	}
+	if err := l.LogStore.DeleteRange(a, b); err != nil {
+		return err
+	}
+	return l.h.hit("after-delete-range")
+}
+
+// c33FailedAttempt runs one recovery attempt that does not complete. It returns the directory the node lives in
+// afterwards (the crash image for a crash), whether the fault point was reached, and RecoverNode's error.
+func c33FailedAttempt(dir string, fk bool, f c33Fault, n int) (string, bool, error, error) {
+	s := vfNewStore("n0", dir, fk, nil)
+	defer s.ly.Close()
+	conf, err := raft.ReadConfigJSON(s.peersPath)
+	if err != nil {
+		return dir, false, nil, fmt.Errorf("peers: %w", err)
+	}
+	sstr, err := snapshot.NewStore(s.snapshotDir)
+	if err != nil {
+		return dir, false, nil, err
+	}
+	defer sstr.Close()
+	bolt, err := rlog.New(s.raftDBPath, false)
+	if err != nil {
+		return dir, false, nil, err
+	}
+	defer bolt.Close()
+	cache, err := raft.NewLogCache(raftLogCacheSize, bolt)
+	if err != nil {
+		return dir, false, nil, err
+	}
+	h := &c33Hook{f: f, dir: dir, img: fmt.Sprintf("%s-img%d", dir, n)}
+	// as Store.Open does before it calls RecoverNode
+	os.Remove(s.cleanSnapshotPath)
+	lg := log.New(io.Discard, "", 0)
+	rerr := RecoverNode(s.raftDir, nil, fk, lg, &c33Logs{LogStore: cache, h: h}, bolt, &c33Snaps{Store: sstr, h: h}, nil, conf)
+	if h.f.Kind == "crash" && h.fired {
+		if !h.imgOK {
+			return dir, true, rerr, fmt.Errorf("crash image failed: %v", rerr)
+		}
+		return h.img, true, rerr, nil
+	}
+	return dir, h.fired, rerr, nil
 }
 
 func c33Run(w *vWriter, in c33Input) {
@@ -289,42 +503,97 @@ func c33Run(w *vWriter, in c33Input) {
 		valid, why = false, "malformed-json"
 	}
 
-	s.NoSnapshotOnClose = true
-	openErr := s.Open()
+	// recovery attempts that fail or die; the node afterwards lives in `cur` (a crash image replaces the directory)
+	cur := dir
+	var attempts []string // per fault: reached / completed
+	defer func() {
+		if m, _ := filepath.Glob(dir + "-img*"); len(m) > 0 {
+			for _, d := range m {
+				os.RemoveAll(d)
+			}
+		}
+	}()
+	var faultsCoq []string
+	if valid {
+		for i, f := range in.Faults {
+			nd, fired, rerr, err := c33FailedAttempt(cur, in.FK, f, i)
+			if err != nil {
+				fail("failed attempt %v: %v", f, err)
+				return
+			}
+			if fired && f.Kind == "error" && rerr == nil {
+				vc.OracleFail = fmt.Sprintf("RecoverNode reported success although %s failed", f.At)
+				vc.Sig = "C33:recovery-ignores-error:" + f.At
+				w.Emit(vc)
+				return
+			}
+			if !fired && rerr != nil {
+				vc.OracleFail = fmt.Sprintf("recovery attempt %d (after %v) fails without an injected fault: %v", i+1, attempts, rerr)
+				vc.Sig = "C33:recovery-retry-fails:" + c33ErrClass(rerr)
+				w.Emit(vc)
+				return
+			}
+			cur = nd
+			st := "reached"
+			if !fired {
+				st = "not-reached"
+			}
+			attempts = append(attempts, f.Kind+"@"+f.At+":"+st)
+			vc.Tags = append(vc.Tags, "fault:"+f.Kind+"@"+f.At+":"+st)
+			faultsCoq = append(faultsCoq, fmt.Sprintf("(%s, %s)", c33PointCoq(f.At), coqBool(f.Kind == "crash")))
+		}
+	}
+
+	sf := vfNewStore("n0", cur, in.FK, nil)
+	defer sf.ly.Close()
+	sf.NoSnapshotOnClose = true
+	openErr := sf.Open()
 	var after vfDB
 	var conf []vfServer
 	var lastSnap uint64
 	if openErr == nil {
-		after, err = vfDump(s)
+		after, err = vfDump(sf)
 		if err == nil {
-			conf, err = vfConfig(s)
+			conf, err = vfConfig(sf)
 		}
-		if cerr := s.Close(true); err == nil {
+		if cerr := sf.Close(true); err == nil {
 			err = cerr
 		}
 		if err != nil {
 			fail("after recovery: %v", err)
 			return
 		}
-		d2, err := vfReadDisk(s.raftDir)
+		d2, err := vfReadDisk(sf.raftDir)
 		if err != nil {
 			fail("read disk after recovery: %v", err)
 			return
 		}
 		lastSnap = d2.SnapIndex
+		if fileExistsC33(sf.peersPath) {
+			vc.OracleFail = "peers.json is still in place after a successful recovery"
+			vc.Sig = "C33:peers-file-not-renamed"
+			w.Emit(vc)
+			return
+		}
 	} else {
 		// a failed Open leaves its file handles behind; release them and look at the node again without the file
-		if s.boltStore != nil {
-			s.boltStore.Close()
+		if sf.boltStore != nil {
+			sf.boltStore.Close()
 		}
-		if s.snapshotStore != nil {
-			s.snapshotStore.Close()
+		if sf.snapshotStore != nil {
+			sf.snapshotStore.Close()
 		}
-		if s.raftTn != nil {
-			s.raftTn.Close()
+		if sf.raftTn != nil {
+			sf.raftTn.Close()
 		}
-		os.Remove(s.peersPath)
-		s2 := vfNewStore("n0", dir, in.FK, nil)
+		if valid && len(attempts) > 0 {
+			vc.OracleFail = fmt.Sprintf("after the failed attempt(s) %v the recovery cannot be repeated: %v", attempts, openErr)
+			vc.Sig = "C33:recovery-retry-fails:" + c33ErrClass(openErr)
+			w.Emit(vc)
+			return
+		}
+		os.Remove(sf.peersPath)
+		s2 := vfNewStore("n0", cur, in.FK, nil)
 		defer s2.ly.Close()
 		s2.NoSnapshotOnClose = true
 		if err := s2.Open(); err != nil {
@@ -372,8 +641,13 @@ func c33Run(w *vWriter, in c33Input) {
 		vc.Tags = append(vc.Tags, "entries-after-snapshot")
 	}
 	vc.Nontrivial = valid && replayed && len(cmds) > 1
-	vc.Coq = fmt.Sprintf("{| c_node := %s; c_hist := %s; c_live := %s; c_peers := %s; c_ok := %s; c_db := %s; c_conf := %s; c_last := %d%%nat |}",
-		disk.coqNode(in.FK, cmds, conf0), vfEntries(cmds, 1, last), live.coq(), vfServersCoq(peers), coqBool(openErr == nil), after.coq(), vfServersCoq(conf), lastSnap)
+	retried := ""
+	if len(attempts) > 0 {
+		retried = ":after-failed-attempt"
+		vc.Tags = append(vc.Tags, fmt.Sprintf("failed-attempts=%d", len(attempts)))
+	}
+	vc.Coq = fmt.Sprintf("{| c_node := %s; c_hist := %s; c_live := %s; c_peers := %s; c_faults := %s; c_ok := %s; c_db := %s; c_conf := %s; c_last := %d%%nat |}",
+		disk.coqNode(in.FK, cmds, conf0), vfEntries(cmds, 1, last), live.coq(), vfServersCoq(peers), coqList(faultsCoq), coqBool(openErr == nil), after.coq(), vfServersCoq(conf), lastSnap)
 	if in.PeersKind == "malformed-json" {
 		vc.Coq = "" // the model starts from a parsed file
 	}
@@ -400,7 +674,10 @@ func c33Run(w *vWriter, in c33Input) {
 			kind = "missing-rows"
 		}
 		vc.OracleFail = fmt.Sprintf("node held %s before shutdown and %s after the re-open (%s, %s, peers %s)", live, after, what, fkTag, in.PeersKind)
-		vc.Sig = fmt.Sprintf("C33:%s-data-differs:%s:%s", what, kind, fkTag)
+		if retried != "" {
+			vc.OracleFail += fmt.Sprintf(" after the failed attempt(s) %v", attempts)
+		}
+		vc.Sig = fmt.Sprintf("C33:%s-data-differs:%s:%s%s", what, kind, fkTag, retried)
 	case valid && vJSON(conf) != vJSON(peers):
 		vc.OracleFail = fmt.Sprintf("configuration after recovery %s, peers file %s", vJSON(conf), raw)
 		vc.Sig = "C33:configuration-differs-from-peers-file"
@@ -412,6 +689,27 @@ func c33Run(w *vWriter, in c33Input) {
 		vc.Sig = "C33:recovery-snapshot-index"
 	}
 	w.Emit(vc)
+}
+
+func fileExistsC33(p string) bool { _, err := os.Stat(p); return err == nil }
+
+func c33ErrClass(err error) string {
+	switch m := err.Error(); {
+	case strings.Contains(m, "existing WAL"):
+		return "stale-recovery-wal"
+	case strings.Contains(m, "failed to get log"):
+		return "log-entry-missing"
+	case strings.Contains(m, "snapshot"):
+		return "snapshot"
+	default:
+		return "other"
+	}
+}
+
+func c33PointCoq(at string) string {
+	return map[string]string{"list": "PList", "open-snapshot": "POpenSnapshot", "getlog-first": "PGetLogFirst", "getlog-last": "PGetLogLast",
+		"create": "PCreate", "sink-write": "PSinkWrite", "sink-close": "PSinkClose", "after-sink-close": "PAfterSinkClose",
+		"first-index": "PFirstIndex", "delete-range": "PDeleteRange", "after-delete-range": "PAfterDeleteRange"}[at]
 }
 
 func TestVerif_C33(t *testing.T) {
@@ -427,7 +725,7 @@ func TestVerif_C33(t *testing.T) {
 	}
 	rng := vRand()
 	ins := c33Corpus()
-	n := vN(90, 1500)
+	n := vN(60, 1500)
 	for i := 0; i < n; i++ {
 		ins = append(ins, c33Gen(rng))
 	}
